@@ -622,6 +622,112 @@ theorem mx_reachable {cfg : Cfg} {n : Nat} {fs : FState} (hr : FReachable cfg n 
   | init => exact mx_init n
   | step c _ hs ih => exact mx_step cfg c ih hs
 
+/-! ### … also between workers -/
+
+/-- two workers never hold the mutex together -/
+def MxW (fs : FState) : Prop :=
+  ∀ (j k : Nat) (w w' : FW), fs.fw[j]? = some w → fs.fw[k]? = some w' → w.isLocked = true → w'.isLocked = true → j = k
+
+theorem wakeFW_isLocked (w : FW) : (wakeFW w).isLocked = w.isLocked := by
+  cases w with
+  | «at» pc => cases pc <;> rfl
+  | locked l => rfl
+  | unlocked o => rfl
+
+/-- a main-thread step leaves every worker's lock status as it was -/
+theorem fstepMain_fw (cfg : Cfg) {fs fs' : FState} (c : MChoice) (h : fstepMain cfg fs c = some fs') :
+    fs'.fw = fs.fw ∨ fs'.fw = fs.fw.map wakeFW := by
+  have crit1 : ∀ d, (fsubmitCrit fs d).fw = fs.fw.map wakeFW := by
+    intro d; unfold fsubmitCrit; dsimp only; split <;> rfl
+  unfold fstepMain at h
+  split at h
+  · simp only [Option.some.injEq] at h; subst h; exact Or.inl rfl
+  · split at h
+    · simp only [Option.some.injEq] at h; subst h; exact Or.inl rfl
+    · split at h
+      · simp only [Option.some.injEq] at h; subst h; exact Or.inl rfl
+      · simp only [Option.some.injEq] at h; subst h; exact Or.inl rfl
+  · simp only [Option.some.injEq] at h; subst h; exact Or.inl rfl
+  · simp only [Option.some.injEq] at h; subst h; exact Or.inl rfl
+  · split at h
+    · simp only [Option.some.injEq] at h; subst h; exact Or.inl rfl
+    · simp at h
+  · split at h
+    · simp only [Option.some.injEq] at h; subst h; exact Or.inl rfl
+    · simp at h
+  · split at h
+    · simp only [Option.some.injEq] at h; subst h; exact Or.inl rfl
+    · simp at h
+  · split at h
+    · simp only [Option.some.injEq] at h; subst h; exact Or.inl rfl
+    · simp at h
+  · split at h
+    · simp only [Option.some.injEq] at h; subst h; exact Or.inl rfl
+    · simp at h
+  · simp only [Option.some.injEq] at h; subst h; exact Or.inr (crit1 _)
+  · simp only [Option.some.injEq] at h; subst h; exact Or.inl (fdeqCrit_fw cfg fs)
+  · simp only [Option.some.injEq] at h; subst h; exact Or.inl (fdeqCrit_fw cfg fs)
+  · simp only [Option.some.injEq] at h; subst h; exact Or.inl rfl
+  · simp only [Option.some.injEq] at h; subst h; exact Or.inr rfl
+  · rename_i t hfm
+    simp only [Option.some.injEq] at h; subst h
+    left
+    cases t with
+    | deq o => cases o <;> rfl
+    | _ => rfl
+  · split at h
+    · split at h <;> (simp only [Option.some.injEq] at h; subst h; exact Or.inl rfl)
+    · simp at h
+  · simp at h
+
+theorem mxw_step (cfg : Cfg) {fs fs' : FState} (c : Choice) (hmx : MxW fs) (hs : fstep cfg fs c = some fs') :
+    MxW fs' := by
+  cases c with
+  | main mc =>
+    intro j k w w' hj hk hw hw'
+    rcases fstepMain_fw cfg mc hs with e | e
+    · rw [e] at hj hk; exact hmx j k w w' hj hk hw hw'
+    · rw [e, List.getElem?_map] at hj hk
+      cases hj0 : fs.fw[j]? with
+      | none => rw [hj0] at hj; cases hj
+      | some v =>
+        cases hk0 : fs.fw[k]? with
+        | none => rw [hk0] at hk; cases hk
+        | some v' =>
+          rw [hj0] at hj; rw [hk0] at hk
+          simp only [Option.map_some, Option.some.injEq] at hj hk
+          subst hj; subst hk
+          rw [wakeFW_isLocked] at hw hw'
+          exact hmx j k v v' hj0 hk0 hw hw'
+  | worker i spur =>
+    obtain ⟨_, w0, hfw, hw0⟩ := fstepWorker_shape cfg i spur hs
+    intro j k w w' hj hk hw hw'
+    rw [hfw] at hj hk
+    rcases getElem?_set_cases _ _ _ _ _ hj with ⟨hji, hwe⟩ | ⟨hji, hj'⟩
+    · subst hwe
+      rcases getElem?_set_cases _ _ _ _ _ hk with ⟨hki, _⟩ | ⟨_, hk'⟩
+      · rw [← hji, ← hki]
+      · have := (mutexFree_spec fs (hw0 hw)).2 k w' hk'
+        rw [hw'] at this; cases this
+    · rcases getElem?_set_cases _ _ _ _ _ hk with ⟨_, hwe⟩ | ⟨_, hk'⟩
+      · subst hwe
+        have := (mutexFree_spec fs (hw0 hw')).2 j w hj'
+        rw [hw] at this; cases this
+      · exact hmx j k w w' hj' hk' hw hw'
+
+theorem mxw_init (n : Nat) : MxW (finit n) := by
+  intro j k w w' hj _ hw _
+  simp only [finit] at hj
+  rw [List.getElem?_replicate] at hj
+  split at hj
+  · cases hj; cases hw
+  · cases hj
+
+theorem mxw_reachable {cfg : Cfg} {n : Nat} {fs : FState} (hr : FReachable cfg n fs) : MxW fs := by
+  induction hr with
+  | init => exact mxw_init n
+  | step c _ hs ih => exact mxw_step cfg c ih hs
+
 /-! ### the simulation -/
 
 theorem fstep_sim (cfg : Cfg) {fs fs' : FState} (c : Choice) (hmx : Mx fs) (hs : fstep cfg fs c = some fs') :
